@@ -35,6 +35,10 @@ class NohBlackBoxEos(ExactSolver):
             self.symmetry = initial_conditions['symmetry']
             self.initial_conditions =initial_conditions # Maybe refactor this later so users can change initial conditions. For now focus on black box eos interaction.
             self.residual_funciton = pressure_noh_residual(self.initial_conditions, self.eos)
+            # The state returned ahead of the shock is the state the jump conditions are solved for.
+            self.rho0 = initial_conditions['density']
+            self.u0 = initial_conditions['velocity']
+            self.p0 = initial_conditions['pressure']
 
             if self.geometry not in [1, 2, 3]:
                 raise ValueError("geometry must be 1, 2, or 3")
